@@ -1,5 +1,6 @@
 """C09  Failing, hanging or crashing tests and tools are never accepted, never wedge."""
 import json
+import os
 import random
 import time
 
@@ -96,7 +97,7 @@ def explore(ctx):
     rnd = random.Random(ctx.seed + 9)
     each = []
     n = 120 if ctx.quick() else 1200
-    corpus = [e['scenario'] for e in json.load(open('/verif/corpus/driver.json'))]
+    corpus = [e['scenario'] for e in json.load(open(os.path.join(os.environ.get('VERIF_ROOT', '/verif'), 'corpus', 'driver.json')))]
     for it in range(n + len(corpus)):
         prof = 'faults' if it % 2 else 'nonblocking'
         if it < len(corpus):
